@@ -85,30 +85,34 @@ theorem sum_modify (d : Array α) (k0 : Nat) (δ : α) (w : Nat → α) (l : Lis
       simp only [this]
       ring
 
-/-- segments of different rows are disjoint and lie inside the data array -/
-def SegOK (p : Pattern) (n : Nat) : Prop :=
-  (∀ r r' k, k ∈ p.seg r → k ∈ p.seg r' → r = r') ∧ (∀ r k, k ∈ p.seg r → k < n)
+/-- generic dense meaning: `(A x)_r = Σ_{k ∈ seg r} a_k x_{col k}` (CSR: `Pattern.apply`, banded: `bandedApply`) -/
+def applyG (seg : Nat → List Nat) (col : Nat → Nat) (d : Array α) (x : Nat → α) (r : Nat) : α :=
+  ((seg r).map fun k => d.getD k 0 * x (col k)).sum
 
-theorem seg_nodup (p : Pattern) (r : Nat) : (p.seg r).Nodup := List.nodup_range' 1
+/-- the positions of a row are distinct, rows are disjoint, everything lies inside the data array -/
+structure SegOKG (seg : Nat → List Nat) (n : Nat) : Prop where
+  nodup : ∀ r, (seg r).Nodup
+  disj : ∀ r r' k, k ∈ seg r → k ∈ seg r' → r = r'
+  bound : ∀ r k, k ∈ seg r → k < n
 
 /-- effect of one update `data[k] += δ` with `k` in row `ix` on the dense meaning -/
-theorem apply_modify (p : Pattern) (d : Array α) (ix k : Nat) (δ : α) (hk : k ∈ p.seg ix)
-    (hok : SegOK p d.size) (x : Nat → α) (r : Nat) :
-    p.apply (d.modify k (· + δ)) x r = p.apply d x r + (if r = ix then δ * x (p.col k) else 0) := by
-  unfold Pattern.apply
-  rw [sum_modify d k δ (fun k => x (p.col k)) (p.seg r) (seg_nodup p r) (hok.2 ix k hk)]
+theorem applyG_modify (seg : Nat → List Nat) (col : Nat → Nat) (d : Array α) (ix k : Nat) (δ : α) (hk : k ∈ seg ix)
+    (hok : SegOKG seg d.size) (x : Nat → α) (r : Nat) :
+    applyG seg col (d.modify k (· + δ)) x r = applyG seg col d x r + (if r = ix then δ * x (col k) else 0) := by
+  unfold applyG
+  rw [sum_modify d k δ (fun k => x (col k)) (seg r) (hok.nodup r) (hok.bound ix k hk)]
   by_cases hr : r = ix
   · subst hr; simp [hk]
-  · have : k ∉ p.seg r := fun h => hr (hok.1 r ix k h hk)
+  · have : k ∉ seg r := fun h => hr (hok.disj r ix k h hk)
     simp [this, hr]
 
 /-! ### inner loop -/
 
-theorem scatterCols_spec (p : Pattern) (cp : Array (Option Nat)) (alpha : α) (f : Nat → α) (ix : Nat)
-    (cols : List (Nat × Nat)) (d : Array α) (hok : SegOK p d.size)
-    (hcp : ∀ jx j, (jx, j) ∈ cols → ∃ k ∈ p.seg ix, p.col k = jx ∧ cp.getD jx none = some k) :
+theorem scatterColsG_spec (seg : Nat → List Nat) (col : Nat → Nat) (cp : Array (Option Nat)) (alpha : α) (f : Nat → α)
+    (ix : Nat) (cols : List (Nat × Nat)) (d : Array α) (hok : SegOKG seg d.size)
+    (hcp : ∀ jx j, (jx, j) ∈ cols → ∃ k ∈ seg ix, col k = jx ∧ cp.getD jx none = some k) :
     ∃ d', scatterCols cp alpha f cols d = some d' ∧ d'.size = d.size ∧
-      ∀ (x : Nat → α) (r : Nat), p.apply d' x r = p.apply d x r +
+      ∀ (x : Nat → α) (r : Nat), applyG seg col d' x r = applyG seg col d x r +
         (if r = ix then alpha * (cols.map fun (jx, j) => f j * x jx).sum else 0) := by
   induction cols generalizing d with
   | nil => exact ⟨d, rfl, rfl, fun x r => by simp⟩
@@ -120,7 +124,7 @@ theorem scatterCols_spec (p : Pattern) (cp : Array (Option Nat)) (alpha : α) (f
       (fun jx' j' h => hcp jx' j' (List.mem_cons_of_mem _ h))
     refine ⟨d', ?_, by rw [hsize, hsz], fun x r => ?_⟩
     · simp only [scatterCols, hget]; exact hd'
-    · rw [hsem x r, apply_modify p d ix k (alpha * f j) hk hok x r, hcol]
+    · rw [hsem x r, applyG_modify seg col d ix k (alpha * f j) hk hok x r, hcol]
       by_cases hr : r = ix
       · simp only [hr, if_true, List.map_cons, List.sum_cons]; ring
       · simp [hr]
@@ -131,35 +135,63 @@ theorem scatterCols_spec (p : Pattern) (cp : Array (Option Nat)) (alpha : α) (f
 def contribL (loc : Nat → Nat → α) (rows cols : List (Nat × Nat)) (x : Nat → α) (r : Nat) : α :=
   (rows.map fun (ix, i) => if ix = r then (cols.map fun (jx, j) => loc i j * x jx).sum else 0).sum
 
-theorem scatterRows_spec (p : Pattern) (alpha : α) (loc : Nat → Nat → α) (cols rows : List (Nat × Nat))
-    (st : ScatterSt α) (hok : SegOK p st.data.size)
+theorem scatterRowsG_spec (seg : Nat → List Nat) (col : Nat → Nat)
+    (build : Nat → Array (Option Nat) → Array (Option Nat)) (alpha : α) (loc : Nat → Nat → α)
+    (cols rows : List (Nat × Nat)) (st : ScatterSt α) (hok : SegOKG seg st.data.size)
+    (hbuild : ∀ ix i, (ix, i) ∈ rows → ∀ cp, build ix cp = foldCp col (seg ix) cp)
     (hcols : ∀ jx j, (jx, j) ∈ cols → jx < st.colPtr.size)
-    (hcov : ∀ ix i, (ix, i) ∈ rows → ∀ jx j, (jx, j) ∈ cols → ∃ k ∈ p.seg ix, p.col k = jx) :
-    ∃ st', scatterRows p alpha loc cols rows st = some st' ∧ st'.data.size = st.data.size ∧
+    (hcov : ∀ ix i, (ix, i) ∈ rows → ∀ jx j, (jx, j) ∈ cols → ∃ k ∈ seg ix, col k = jx) :
+    ∃ st', scatterRowsG build alpha loc cols rows st = some st' ∧ st'.data.size = st.data.size ∧
       st'.colPtr.size = st.colPtr.size ∧
-      ∀ (x : Nat → α) (r : Nat), p.apply st'.data x r = p.apply st.data x r + alpha * contribL loc rows cols x r := by
+      ∀ (x : Nat → α) (r : Nat), applyG seg col st'.data x r = applyG seg col st.data x r + alpha * contribL loc rows cols x r := by
   induction rows generalizing st with
   | nil => exact ⟨st, rfl, rfl, rfl, fun x r => by simp [contribL]⟩
   | cons c t ih =>
     obtain ⟨ix, i⟩ := c
-    have hcpsz : (buildColPtr p ix st.colPtr).size = st.colPtr.size := by
-      rw [buildColPtr_eq]; exact foldCp_size ..
-    have hcp : ∀ jx j, (jx, j) ∈ cols → ∃ k ∈ p.seg ix, p.col k = jx ∧
-        (buildColPtr p ix st.colPtr).getD jx none = some k := by
+    have hb := hbuild ix i (List.mem_cons_self ..) st.colPtr
+    have hcpsz : (build ix st.colPtr).size = st.colPtr.size := by
+      rw [hb]; exact foldCp_size ..
+    have hcp : ∀ jx j, (jx, j) ∈ cols → ∃ k ∈ seg ix, col k = jx ∧
+        (build ix st.colPtr).getD jx none = some k := by
       intro jx j hj
-      rw [buildColPtr_eq]
-      exact foldCp_hit p.col (p.seg ix) st.colPtr jx (hcols jx j hj) (hcov ix i (List.mem_cons_self ..) jx j hj)
-    obtain ⟨d', hd', hsize, hsem⟩ := scatterCols_spec p (buildColPtr p ix st.colPtr) alpha (loc i) ix cols st.data hok hcp
-    obtain ⟨st', hst', hs1, hs2, hsem'⟩ := ih ⟨buildColPtr p ix st.colPtr, d'⟩ (by simpa [hsize] using hok)
+      rw [hb]
+      exact foldCp_hit col (seg ix) st.colPtr jx (hcols jx j hj) (hcov ix i (List.mem_cons_self ..) jx j hj)
+    obtain ⟨d', hd', hsize, hsem⟩ := scatterColsG_spec seg col (build ix st.colPtr) alpha (loc i) ix cols st.data hok hcp
+    obtain ⟨st', hst', hs1, hs2, hsem'⟩ := ih ⟨build ix st.colPtr, d'⟩ (by simpa [hsize] using hok)
+      (fun ix' i' h => hbuild ix' i' (List.mem_cons_of_mem _ h))
       (fun jx j hj => by simpa [hcpsz] using hcols jx j hj)
       (fun ix' i' h => hcov ix' i' (List.mem_cons_of_mem _ h))
     refine ⟨st', ?_, by simpa [hsize] using hs1, by simpa [hcpsz] using hs2, fun x r => ?_⟩
-    · simp only [scatterRows, hd']; exact hst'
+    · simp only [scatterRowsG, hd']; exact hst'
     · rw [hsem' x r]
       simp only [hsem x r, contribL, List.map_cons, List.sum_cons]
       by_cases hr : r = ix
       · simp only [hr, if_true]; ring
       · have hr' : ix ≠ r := fun h => hr h.symm
         simp only [hr, hr', if_false]; ring
+
+/-! ### the CSR instance -/
+
+/-- segments of different rows are disjoint and lie inside the data array -/
+def SegOK (p : Pattern) (n : Nat) : Prop :=
+  (∀ r r' k, k ∈ p.seg r → k ∈ p.seg r' → r = r') ∧ (∀ r k, k ∈ p.seg r → k < n)
+
+theorem seg_nodup (p : Pattern) (r : Nat) : (p.seg r).Nodup := List.nodup_range' 1
+
+theorem SegOK.toG {p : Pattern} {n : Nat} (h : SegOK p n) : SegOKG p.seg n :=
+  ⟨seg_nodup p, h.1, h.2⟩
+
+theorem apply_eq_applyG (p : Pattern) (d : Array α) (x : Nat → α) (r : Nat) :
+    p.apply d x r = applyG p.seg p.col d x r := rfl
+
+theorem scatterRows_spec (p : Pattern) (alpha : α) (loc : Nat → Nat → α) (cols rows : List (Nat × Nat))
+    (st : ScatterSt α) (hok : SegOK p st.data.size)
+    (hcols : ∀ jx j, (jx, j) ∈ cols → jx < st.colPtr.size)
+    (hcov : ∀ ix i, (ix, i) ∈ rows → ∀ jx j, (jx, j) ∈ cols → ∃ k ∈ p.seg ix, p.col k = jx) :
+    ∃ st', scatterRows p alpha loc cols rows st = some st' ∧ st'.data.size = st.data.size ∧
+      st'.colPtr.size = st.colPtr.size ∧
+      ∀ (x : Nat → α) (r : Nat), p.apply st'.data x r = p.apply st.data x r + alpha * contribL loc rows cols x r :=
+  scatterRowsG_spec p.seg p.col (buildColPtr p) alpha loc cols rows st hok.toG
+    (fun ix _ _ cp => buildColPtr_eq p ix cp) hcols hcov
 
 end C16L
